@@ -1078,7 +1078,7 @@ Definition basis_close : Prop :=
 Lemma in_basis_devs x : In x (basis_devs RO d basis) <->
   exists k i j, (k < d * d)%nat /\ (i < d)%nat /\ (j < d)%nat /\ x = bdev k i j.
 Proof.
-  unfold basis_devs. rewrite in_concat. split.
+  unfold basis_devs. cbv zeta. rewrite in_concat. split.
   - intros [l [Hl Hx]]. apply in_build in Hl. destruct Hl as [k [Hk ->]].
     apply in_concat in Hx. destruct Hx as [l' [Hl' Hx]]. apply in_build in Hl'. destruct Hl' as [i [Hi ->]].
     apply in_build in Hx. destruct Hx as [j [Hj ->]]. exists k, i, j. auto.
